@@ -42,7 +42,9 @@ def gen_node(ch, nm, depth, max_depth, fan, rich, parent_has_rest=False):
     node = dict(name=name, aliases=["k%s%d" % (name[1:3], i) for i in range(ch.randint(0, 2))], kind=kind, args=[], opts=[], subs=[],
                 desc=ch.choice(DESCS) if rich else "about " + name, help=None)
     if rich and ch.flip(0.3):
-        node["help"] = ch.choice(["Run {script_name} %s to do things." % name, "Plain help text without placeholder."])
+        node["help"] = ch.choice(["Run {script_name} %s to do things." % name, "Plain help text without placeholder.",
+                                  # help texts are free text: JSON examples, set notation, format strings
+                                  'Pass JSON such as {"key": 1} or an empty object {}.', "Use {name} and {0} as placeholders of your own.", "A lone brace { or } is text."])
     leaf = depth >= max_depth or kind in ("default", "anon") or ch.flip(0.35)
     if not leaf:
         for _ in range(ch.randint(1, fan)):
